@@ -34,6 +34,8 @@ type viewVals struct {
 	Read  [][]string `json:"read"`
 	Lstat [][]string `json:"lstat"`
 	List  [][]string `json:"list"`
+	// Stream: what a Reader returns (the model has one read value for ReadFile and Reader)
+	Stream [][]string `json:"-"`
 }
 
 func (v viewVals) key() string {
@@ -109,6 +111,7 @@ func (w *cacheWorld) view(p []string) viewVals {
 	path := strings.Join(p, "/")
 	v := viewVals{Exist: w.cache.IsExist(path), File: w.cache.IsFile(path), Dir: w.cache.IsDir(path)}
 	v.Read = fsx.Exec(w.cache, fsx.Op{Name: "read", Sp: p}, w.d, nil)
+	v.Stream = fsx.Exec(w.cache, fsx.Op{Name: "rstream", Sp: p, Chunk: 7}, w.d, nil)
 	v.Lstat = fsx.Exec(w.cache, fsx.Op{Name: "lstat", Sp: p}, w.d, nil)
 	v.List = fsx.Exec(w.cache, fsx.Op{Name: "readdir", Sp: p}, w.d, nil)
 	return v
@@ -314,8 +317,13 @@ func cmdCacheCases(args []string) error {
 				if firstDiff == "" {
 					firstDiff = fmt.Sprintf("at %q the cache answers %s, the ideal %s", strings.Join(ve.P, "/"), got.key(), ve.Ideal.key())
 				}
+			} else if fsx.Res(got.Stream).Key() != fsx.Res(ve.Ideal.Read).Key() {
+				allIdeal = false
+				if firstDiff == "" {
+					firstDiff = fmt.Sprintf("at %q a Reader returns %v, the ideal %v", strings.Join(ve.P, "/"), got.Stream, ve.Ideal.Read)
+				}
 			}
-			if got.key() != ve.Impl.key() {
+			if got.key() != ve.Impl.key() || fsx.Res(got.Stream).Key() != fsx.Res(ve.Impl.Read).Key() {
 				allImpl = false
 			}
 		}
